@@ -34,7 +34,7 @@ for mod,structs in by.items():
         arms=''.join(f"""        //@ before ({f['name']},bytes)=<
         //@ tag tags.no_second_dispatch.{f['name']} C13
             proof {{ assert(!seen.contains({f['tag']}u16)); seen = seen.insert({f['tag']}u16) ; }}
-{vec_hint(f)}        //@ before returnErr(zvt_builder::ZVTError::DuplicateTag(zvt_builder::Tag({f['tag']}u16)
+{vec_hint(f)}        //@ before returnErr(zvt_builder::ZVTError::DuplicateTag(
         //@ tag tags.duplicate_error_is_true.{f['name']} C13
             proof {{ assert(seen.contains({f['tag']}u16)) ; }}
 """ for f in tagged)
